@@ -16,7 +16,9 @@ def run_block_scenarios(ctx, native, scs, prefix, check_none=False, profiles=(Fa
     for idx, sc in enumerate(scs):
         K = sc["K"]
         p = rfc.Params(K)
-        for release in (profiles if idx % 4 == 0 else profiles[:1]):
+        # release builds take solver paths that debug-assertion builds do not (cfg(not(debug_assertions))): alternate, and run both every 4th
+        which = profiles if (idx % 4 == 0 or len(profiles) == 1) else (profiles[idx % 2],)
+        for release in which:
             prof = "release" if release else "debug"
             tag = "%s/K=%d/thr=%d/%s/#%d" % (prefix, K, sc["thr"], prof, idx)
             esis = decscen.esis_arg(sc)
@@ -118,8 +120,8 @@ def object_scenarios(ctx, replay):
             res = replay.both(["roundtrip", F, T, Z, N, Al, drop, extra, ctx.seed])
             n += 1
             for prof, v in res.items():
-                if v.startswith("decoded equal=true len=%d" % F) or v == "none":
-                    continue
+                if v.startswith("decoded equal=true len=%d" % F) or (v == "none" and drop > 0):
+                    continue        # 'not yet' is only acceptable when something was dropped: with every source packet delivered the object must come back
                 rep.violated("c01/object/F=%d,T=%d,Z=%d,N=%d,Al=%d,drop=%d" % (F, T, Z, N, Al, drop), "object roundtrip",
                              "object round trip (%s build) gave: %s" % (prof, v[:200]),
                              {"kind": "roundtrip", "args": [F, T, Z, N, Al, drop, extra, ctx.seed]}, 0.0, "native")
